@@ -300,10 +300,38 @@ func doneNilEdge(e *Env, from *ssa.BasicBlock, idx int) bool {
 // isChanNamed: v is the notification channel handed to the scheduling loop: a
 // parameter or captured variable of channel type (by role; the name is not used).
 func isChanNamed(v ssa.Value, name string) bool {
-	v = ir.Deep(v)
 	if _, ok := v.Type().Underlying().(*types.Chan); !ok {
 		return false
 	}
+	if isParamLike(ir.Resolve(v)) {
+		return true
+	}
+	v = ir.Deep(v)
+	switch x := v.(type) {
+	case *ssa.Parameter, *ssa.FreeVar:
+		return true
+	case *ssa.Field:
+		// a field of a small struct the worker is handed (`run.done`)
+		return isParamLike(ir.Resolve(x.X)) || isParamLike(ir.Deep(x.X))
+	case *ssa.UnOp:
+		if fa, ok := x.X.(*ssa.FieldAddr); ok && x.Op == token.MUL {
+			if isParamLike(ir.Resolve(fa.X)) || isParamLike(ir.Deep(fa.X)) {
+				return true
+			}
+			// the struct parameter spilled into a local
+			if al, isA := fa.X.(*ssa.Alloc); isA {
+				for _, sv := range ir.StoresTo(al) {
+					if isParamLike(ir.Resolve(sv)) || isParamLike(ir.Deep(sv)) {
+						return true
+					}
+				}
+			}
+		}
+	}
+	return false
+}
+
+func isParamLike(v ssa.Value) bool {
 	switch v.(type) {
 	case *ssa.Parameter, *ssa.FreeVar:
 		return true
@@ -590,15 +618,25 @@ func c03DryNoHistory(e *Env, s *Sched) {
 		return
 	}
 	// by role: the dry run is the function of the agent, other than Run, that schedules
+	isADry := func(v ssa.Value) bool {
+		p, ok := e.C.PathOf(v)
+		return ok && p.Dotted() == e.agentDryField() && strings.HasSuffix(ir.NamedType(p.Root.Type()), ".Agent")
+	}
+	// (a function that schedules and is called, from its only call site, under `!a.dry` is
+	// the real run moved into a helper of Run, not the dry run)
 	var dry *ssa.Function
 	for _, h := range ar.Holders(apiSchedule) {
-		if h != run {
-			if dry != nil {
-				r.Unknown("the agent's dry run", agentRel, "several functions besides Run schedule the graph")
-				return
-			}
-			dry = h
+		if h == run {
+			continue
 		}
+		if us := ir.UniqueSite(h); us != nil && HasVal(e.DCS(us), isADry, false) {
+			continue
+		}
+		if dry != nil {
+			r.Unknown("the agent's dry run", agentRel, "several functions besides Run schedule the graph")
+			return
+		}
+		dry = h
 	}
 	if dry == nil {
 		r.Unknown("the agent's dry run", agentRel, "no function of the agent besides Run schedules the graph")
@@ -607,10 +645,6 @@ func c03DryNoHistory(e *Env, s *Sched) {
 	isHistOrSock := func(f *ssa.Function) bool {
 		n := ir.FuncName(f)
 		return strings.HasPrefix(n, "(*internal/persistence/jsondb.") || strings.HasPrefix(n, "(*internal/sock.Server).") || n == "internal/sock.NewServer"
-	}
-	isADry := func(v ssa.Value) bool {
-		p, ok := e.C.PathOf(v)
-		return ok && p.Dotted() == e.agentDryField() && strings.HasSuffix(ir.NamedType(p.Root.Type()), ".Agent")
 	}
 	// the dry branch: `if a.dry { return a.dryRun() }`
 	found := false
